@@ -46,6 +46,7 @@ def zero_edge_inputs(call, gen, want=2, tries=1500):
     for i in range(tries):
         x = gen(i)
         try: r = call(x)
+        except NameError: raise                      # a harness slip, not the library's behaviour
         except Exception: continue
         if isinstance(r, (bytes, bytearray)) and len(r) > 0 and (r[0] == 0 or r[-1] == 0):
             out.append(x)
@@ -134,16 +135,22 @@ class Ctx:
         self.transitions += res['generated'] or 0
 
     # ---- model checking of the specification itself ----------------------------------------------
+    MAY_BE_DISABLED = {}          # cfg file name -> actions that this configuration disables on purpose
+
     def model_check(self, module, cfg=None, what=None, env=None, timeout=3600, workers=16, expect_printed=False, extra=()):
         """Run a bounded exhaustive TLC model of the SPECIFICATION.  A violated invariant there is a
         machinery failure (the spec is wrong), not a property violation of the code."""
         res = tlc.run(os.path.join(tlc.SPEC, module), cfg=os.path.join(tlc.SPEC, cfg) if cfg else None, env=env,
-                      timeout=timeout, workers=workers, extra=extra)
+                      timeout=timeout, workers=workers, extra=list(extra) + ['-coverage', '1'])
         what = what or module
         if res['timed_out'] or res['errors'] or res['generated'] is None or res['queue'] != 0:
             raise Machinery('model check %s failed: %s\n%s' % (what, res['errors'][:3], res['stdout'][-3000:]))
         self.add_tlc(res, 'MC ' + what)
-        self.mc_runs.append(dict(model=what, distinct=res['distinct'], generated=res['generated'], wall=round(res['wall'], 1)))
+        never = sorted(a for a, (d, g) in res['actions'].items() if g == 0 and a not in self.MAY_BE_DISABLED.get(os.path.basename(cfg or module), ()))
+        if never:                                  # vacuity: an action of the model that no behaviour ever took
+            raise Machinery('model check %s is vacuous: action(s) %s never taken' % (what, never))
+        self.mc_runs.append(dict(model=what, distinct=res['distinct'], generated=res['generated'], wall=round(res['wall'], 1),
+                                 actions={a: v[1] for a, v in res['actions'].items()}))
         return res
 
     # ---- trace validation -----------------------------------------------------------------------
